@@ -141,8 +141,13 @@ def check_read_conf(ctx, rng):
         # an existing location whose path contains a colon (everything after the FIRST colon of the value is the location)
         colon_dir = os.path.join(root, 'stores', 'vol:2', 'keys')
         os.makedirs(colon_dir, exist_ok=True)
+        for c in all_user_cands:
+            # beside each per-user configuration directory: a store that is reached with '..' from it (and from nowhere else: not
+            # from the working directory)
+            up_ = os.path.join(os.path.dirname(os.path.dirname(c)), 'upstore')
+            os.makedirs(os.path.join(up_, 'ndnsec-key-file'), exist_ok=True)
         loc_choices = {'none': None, 'abs': 'ABS', 'rel-file': 'relstore', 'rel-cwd': 'cwdstore', 'missing-abs': os.path.join(root, 'nope'),
-                       'missing-rel': 'nonexistent-dir', 'abs-regular-file': a_file, 'rel-regular-file': 'relfile.db', 'abs-with-colon': colon_dir}
+                       'missing-rel': 'nonexistent-dir', 'abs-regular-file': a_file, 'rel-regular-file': 'relfile.db', 'abs-with-colon': colon_dir, 'rel-dotdot': '../upstore'}
         # (a transport this library has no face for - another implementation's, or a typo - is still the configured value: it is refused
         # when a face is made from it, not silently replaced by the platform default while the file is read)
         transports = ['unix:///tmp/x.sock', 'tcp://10.0.0.1:7000', 'udp4://host.example', 'ws://router.example:9696/ws', 'unxi:///run/nfd/nfd.sock'] + \
